@@ -83,3 +83,65 @@ package internal
 //@   loop 2 invariant wf: l != nil && WFConfig(addr(l.Config)) && CallbacksParse(addr(l.Config)) && addr(l.Config).Chains == $rangeslice1 && addr(l.Config).Chains[rangeindex1 + 1].Filters == $rangeslice2
 //@   loop 2 invariant noover1: addr(l.Config).DefaultOidcConfig == nil ==> forall i int, j int :: 0 <= i && i <= rangeindex1 && 0 <= j && j < len(addr(l.Config).Chains[i].Filters) ==> addr(l.Config).Chains[i].Filters[j].GetOidcOverride() == nil
 //@   loop 2 invariant noover2: addr(l.Config).DefaultOidcConfig == nil ==> forall j int :: 0 <= j && j <= rangeindex2 ==> addr(l.Config).Chains[rangeindex1 + 1].Filters[j].GetOidcOverride() == nil
+
+// ---------------------------------------------------------------------------------------------
+// TLS configuration pool (C20): which trust a *tls.Config handed to the HTTP client expresses
+// ---------------------------------------------------------------------------------------------
+
+//@ import tls "crypto/tls"
+
+//@ interface TLSConfig method GetTrustedCertificateAuthority(self) r
+//@   pure
+//@   ensures  val: r == TlsCA(self)
+//@ interface TLSConfig method GetTrustedCertificateAuthorityFile(self) r
+//@   pure
+//@   ensures  val: r == TlsCAFile(self)
+//@ interface TLSConfig method GetSkipVerifyPeerCert(self) r
+//@   pure
+//@   ensures  val: r == TlsSkip(self)
+//@ interface TLSConfig method GetTrustedCertificateAuthorityRefreshInterval(self) r
+//@   pure
+//@   ensures  val: r == TlsInterval(self)
+
+//@ func BoolStrValue
+//@   ensures  val: result == BoolStr(v)
+
+//@ func encodeConfig
+//@   requires nonnil: config != nil
+//@   ensures  enc: EncView(result) == EncOf(config)
+
+//@ func (tlsConfigEncoder).hash
+//@   modifies ghost Bld, ghost HashIn, above(watermark())
+//@   ensures  id: result == PoolID(EncView(c))
+
+// json.Marshal of the four settings (trusted: encoding/json)
+//@ func (tlsConfigEncoder).JSON
+//@   abstractbody
+//@   pure
+//@   ensures  json: result == EncJson(EncView(c))
+
+// the file watcher (goroutines, tickers) is outside the verified subset: its contract is assumed
+//@ func (*FileWatcher).WatchFile
+//@   abstractbody
+//@   #allocates
+
+//@ func (*tlsConfigPool).LoadTLSConfig
+//@   requires wf: p != nil && p.log != nil && p.configs != nil && p.caWatcher != nil && config != nil && !held(addr(p.mu))
+//@   requires pool: TlsPoolInv(p)
+//@   uses L-hashbuf-injective
+//@   modifies mapof(p.configs), ghost PoolAdded, ghost Bld, ghost HashIn, ghost $held[addr(p.mu)], above(watermark())
+//@   ensures  none: TlsCA(config) == "" && TlsCAFile(config) == "" && TlsSkip(config) == nil ==> result0 == nil && result1 == nil
+//@   ensures  err_nil: result1 != nil ==> result0 == nil
+//@   ensures  trust: result1 == nil && result0 != nil ==> TrustFor(result0, EncOf(config))
+//@   ensures  shared: !(TlsCA(config) == "" && TlsCAFile(config) == "" && TlsSkip(config) == nil) && mapHas(old(p.configs), PoolID(EncOf(config))) ==> result1 == nil && result0 == old(p.configs)[PoolID(EncOf(config))]
+//@   ensures  pooled: result1 == nil && result0 != nil ==> mapHas(p.configs, PoolID(EncOf(config))) && p.configs[PoolID(EncOf(config))] == result0
+//@   ensures  pool: TlsPoolInv(p)
+//@   ensures  unlocked: !held(addr(p.mu))
+
+//@ func (*tlsConfigPool).updateCA
+//@   requires wf: p != nil && p.log != nil && p.configs != nil && !held(addr(p.mu))
+//@   requires pool: TlsPoolInv(p)
+//@   modifies mapof(p.configs), heap tls.Config.RootCAs, ghost PoolAdded, ghost $held[addr(p.mu)], above(watermark())
+//@   ensures  only_id: forall x string :: mapHas(p.configs, x) == mapHas(old(p.configs), x) && p.configs[x] == old(p.configs)[x] && (x != id && mapHas(p.configs, x) ==> p.configs[x].RootCAs == old(p.configs[x].RootCAs))
+//@   ensures  updated: mapHas(p.configs, id) ==> p.configs[id].RootCAs == old(p.configs[id].RootCAs) || (p.configs[id].RootCAs != nil && fresh(p.configs[id].RootCAs) && PemOK(string_of_bytes(caPem)) && PoolAdded[p.configs[id].RootCAs] == string_of_bytes(caPem))
+//@   ensures  unlocked: !held(addr(p.mu))
